@@ -124,6 +124,10 @@ package main
 //@   at effect disk-write assert [C07] written-bytes-parse: Parses(string(arg1))
 //@   at effect disk-write assert [C12,C14,C16] written-bytes-are-the-pipeline-output: arg0 == filename && string(arg1) == ite(opts.SkipImportProcessing, fmtNode(f), impProc(filename, fmtNode(f)))
 //@   at effect disk-write assert [C18] generated-skipped: !(opts.SkipGenerated && ret("main.checkGeneratedCode", 0))
+//@   at call main.loadPatches assert [C12,C14] one-file-set-for-patches-and-targets: arg0 == ret("go/token.NewFileSet", 0)
+//@   at call main.newPatchRunner assert [C12,C14] one-file-set-for-patches-and-targets: arg0 == ret("go/token.NewFileSet", 0)
+//@   at call go/parser.ParseFile#0 assert [C12,C14] the-file-is-parsed-into-the-file-set-the-patches-were-compiled-with: arg0 == ret("go/token.NewFileSet", 0)
+//@   at call go/format.Node assert [C12,C14] printed-with-the-same-file-set: arg1 == ret("go/token.NewFileSet", 0)
 //@   at call go/parser.ParseFile#0 set echoMark = echoes
 //@   at call io.Writer.Write set echoes = echoes + 1
 //@   at call (*log.Logger).Printf where arg1 is "%s: skipped" assert [C06] print-only-echoes-an-unmatched-file: !ok && (opts.Print ==> echoes == echoMark + 1) && (!opts.Print ==> echoes == echoMark)
